@@ -469,6 +469,9 @@ VExecOp1(v0, op) ==
     [] op.o = "PRINT" ->
          LET v1 == [v EXCEPT !.stk = PopN(@, 1)] IN
          IF IsNum(top) /\ ~FmtOK(top) THEN Res(v1, Unknown)
+         \* (only after CONT resumed inside a failed statement can a frame marker or a loop's name be printed)
+         ELSE IF IsMark(top) THEN [Ok(Emit(v1, <<32>>)) EXCEPT !.ev = "event"]
+         ELSE IF top.t = "nm" THEN [Ok(Emit(v1, StrCp(top.s.id) \o StrCp(top.s.sfx))) EXCEPT !.ev = "event"]
          ELSE [Ok(Emit(v1, TextOf(top))) EXCEPT !.ev = "event"]
     [] op.o = "READ" ->
          IF v.dpos >= Len(v.P.link.data) THEN Res(v, Err(EOutOfData))
